@@ -11,7 +11,9 @@ WORK = os.path.join(ROOT, "work")
 EVID = os.path.join(ROOT, "evidence")
 VH = os.path.join(HARNESS, "target", "debug", "vh")
 CP = "/opt/veriftools/tla/tla2tools.jar:/opt/veriftools/tla/CommunityModules-deps.jar"
-NCPU = 16
+NCPU = int(os.environ.get("VERIF_WORKERS", "16"))
+XMX = os.environ.get("VERIF_XMX", "16g")
+REPO = os.environ.get("VERIF_REPO", "/repo")
 GCOPTS = ["-XX:+UseSerialGC", "-XX:CICompilerCount=2"]
 TRACE_CHUNKS = 4   # measured: 1 proc 65k events/s; 4 procs best; 16 procs slower than 1 (VM memory contention)
 
@@ -39,15 +41,18 @@ def seed():
 
 # ---------------------------------------------------------------------------
 # harness
-def build_harness():
-    """Rebuild the harness (and the /repo crates it depends on) from the current working tree."""
+def build_harness(bins=("vh",)):
+    """Rebuild the harness binaries a check needs (and the /repo crates they depend on) from the current working tree."""
     t = time.time()
-    lock_src = "/repo/Cargo.lock"
+    lock_src = os.path.join(REPO, "Cargo.lock")
     lock_dst = os.path.join(HARNESS, "Cargo.lock")
     if not os.path.exists(lock_dst):
         shutil.copy(lock_src, lock_dst)
     env = dict(os.environ, CARGO_NET_OFFLINE="true")
-    p = subprocess.run(["cargo", "build", "--offline"], cwd=HARNESS, env=env,
+    cmd = ["cargo", "build", "--offline"]
+    for b in bins:
+        cmd += ["-p", b]
+    p = subprocess.run(cmd, cwd=HARNESS, env=env,
                        stdout=subprocess.PIPE, stderr=subprocess.STDOUT, text=True)
     if p.returncode != 0:
         sys.stdout.write(p.stdout[-6000:])
@@ -55,11 +60,16 @@ def build_harness():
     log("harness built in %.1fs" % (time.time() - t))
 
 
-def vh(args, timeout=3600, check=True, env=None):
+def vhx(binary, args, timeout=3600, check=True, env=None):
+    """run another harness binary (workspace member vh-<name>)"""
+    return vh(args, timeout=timeout, check=check, env=env, binary=os.path.join(HARNESS, "target", "debug", binary))
+
+
+def vh(args, timeout=3600, check=True, env=None, binary=None):
     e = dict(os.environ)
     if env:
         e.update(env)
-    p = subprocess.run([VH] + [str(a) for a in args], stdout=subprocess.PIPE, stderr=subprocess.PIPE,
+    p = subprocess.run([binary or VH] + [str(a) for a in args], stdout=subprocess.PIPE, stderr=subprocess.PIPE,
                        text=True, timeout=timeout, env=e)
     if check and p.returncode != 0:
         sys.stdout.write(p.stdout[-3000:] + p.stderr[-3000:])
@@ -131,13 +141,13 @@ def parse_action_coverage(out):
     return cov
 
 
-def tlc_mc(pid, module, cfg_body, constants, workers=NCPU, timeout=1800, need_actions=None, xmx="24g"):
+def tlc_mc(pid, module, cfg_body, constants, workers=NCPU, timeout=1800, need_actions=None, xmx=None):
     """Exhaustive model check of the design.  A violation here is a defect of the SPEC (exit 2)."""
     wd = workdir(pid)
     cfg = os.path.join(wd, module + ".cfg")
     write_cfg(cfg, cfg_body, constants)
     rc, out, wall = _java(module + ".tla", cfg, os.path.join(wd, "meta_" + module), workers,
-                          extra=["-coverage", "1"], timeout=timeout, xmx=xmx)
+                          extra=["-coverage", "1"], timeout=timeout, xmx=xmx or XMX)
     with open(os.path.join(wd, module + ".mc.log"), "w") as f:
         f.write(out)
     st = parse_stats(out)
@@ -163,7 +173,7 @@ def tlc_mc(pid, module, cfg_body, constants, workers=NCPU, timeout=1800, need_ac
 _GEN = re.compile(r'^<<"GEN", "(.*)">>$')
 
 
-def tlc_gen(pid, module, cfg_body, constants, outfile, workers=NCPU, timeout=1800, simulate=None, xmx="24g"):
+def tlc_gen(pid, module, cfg_body, constants, outfile, workers=NCPU, timeout=1800, simulate=None, xmx=None):
     """Behaviour generation: collect the JSON printed by the Emit invariant into outfile (one per line)."""
     wd = workdir(pid)
     cfg = os.path.join(wd, module + ".cfg")
@@ -173,7 +183,7 @@ def tlc_gen(pid, module, cfg_body, constants, outfile, workers=NCPU, timeout=180
         extra = ["-simulate", "num=%d" % simulate["num"], "-depth", str(simulate["depth"]), "-seed", str(seed())]
         workers = 1
     rc, out, wall = _java(module + ".tla", cfg, os.path.join(wd, "meta_" + module), workers, extra=extra,
-                          timeout=timeout, xmx=xmx)
+                          timeout=timeout, xmx=xmx or XMX)
     if rc == -9:
         raise ToolError("TLC timed out generating from %s" % module)
     n = 0
@@ -204,6 +214,7 @@ _REJ = re.compile(r'TRACE_REJECTED_AT",\s*(\d+)')
 _INVV = re.compile(r"Error: Invariant (\w+) is violated")
 _PROPV = re.compile(r"Error: Action property (\w+) is violated")
 _L = re.compile(r"^/\\ l = (\d+)", re.M)
+_CONTRACT = re.compile(r'<<"CONTRACT",\s*"([^"]*)">>')
 
 
 def split_runs(tracefile, nchunks, outdir, reset_key="reset"):
@@ -286,7 +297,8 @@ def _diagnose(out, nlines):
         head = out.split("TRACE_REJECTED_AT")[0]
         ls = _L.findall(head)
         at = int(ls[-1]) - 1 if ls else 1
-        return at, "%s violated after this event" % m.group(1)
+        c = _CONTRACT.findall(head)
+        return at, "%s violated after this event%s" % (m.group(1), (": " + c[-1]) if c else "")
     m = _REJ.search(out)
     if m:
         return int(m.group(1)), "no spec step matches this event"
